@@ -303,20 +303,23 @@ def _replay_cache_all(path, cls):
         return dict(confirmed=False, raised=repr(e)[:300])
 
 
-def _beam_section_swap():
-    """dynamic beam simulation: assemble, replace the cross-section by one of another area, assemble again: mass matrix vs a fresh simulation built with the new section."""
+def _beam_section_swap(timo=False):
+    """dynamic beam simulation (timo: Timoshenko theory, new section of another SHAPE -- a disk -- so that the shear correction factors differ): assemble, replace the cross-section by one of another area, assemble again: mass matrix vs a fresh simulation built with the new section."""
     import contextlib, io
     from EasyFEA import Models, Simulations, Mesher, ElemType
     from EasyFEA.Geoms import Domain, Point, Line
     with contextlib.redirect_stdout(io.StringIO()):
         s1 = Mesher().Mesh_2D(Domain(Point(), Point(0.1, 0.2)))
         s2 = Mesher().Mesh_2D(Domain(Point(), Point(0.3, 0.2)))
+        if timo:
+            from EasyFEA.Geoms import Circle
+            s2 = Mesher().Mesh_2D(Circle(Point(), 0.2, 0.02), [], ElemType.TRI6)
         line = Line(Point(0, 0), Point(2.0, 0.0), 0.5)
 
         def mk(sect):
             beam = Models.Beam.Isotropic(2, line, sect, 210e3, v=0.3)
             mesh = Mesher().Mesh_Beams([beam], elemType=ElemType.SEG2)
-            sm = Simulations.Beam(mesh, beam)
+            sm = Simulations.Beam(mesh, beam, useTimoshenko=timo)
             sm.rho = 7.8
             sm.Solver_Set_Hyperbolic_Algorithm(0.1)
             return sm, beam
@@ -330,11 +333,208 @@ def _beam_section_swap():
     return max(float(np.abs(M1 - M2.toarray()).max() / np.abs(M2.toarray()).max()), float(np.abs(K1 - K2.toarray()).max() / np.abs(K2.toarray()).max()))
 
 
-def ob_beam_section_swap():
-    e = _beam_section_swap()
+def ob_phasefield_change(op):
+    """a phase-field simulation is solved for two load steps (the damage system is assembled and flagged up to date when Solve returns), then one parameter of the ELASTIC MATERIAL
+    wrapped by the phase-field model, or of the phase-field model itself, changes: the damage system (Kd, Fd), the displacement system (Ku) and the next solution equal those of a
+    simulation constructed directly in the final configuration and given the same (u, d). The HistoryDamage solver keeps no energy history, so both simulations are in the same state."""
+    import contextlib, io
+    from EasyFEA import Models, Simulations, ElemType
+    from EasyFEA.Geoms import Domain, Point
+    PF = Models.PhaseField
+    first = dict(E=1.0, v=0.3, Gc=0.1, l0=0.1, split=PF.SplitType.Amor, regularization=PF.ReguType.AT2)
+    change = {"material.E": ("mat", "E", 2.0), "material.v": ("mat", "v", 0.2), "model.Gc": ("pfm", "Gc", 0.25), "model.l0": ("pfm", "l0", 0.17),
+              "model.split": ("pfm", "split", PF.SplitType.Miehe), "model.regularization": ("pfm", "regularization", PF.ReguType.AT1)}[op]
+
+    def build(mesh, cfg):
+        mat = Models.Elastic.Isotropic(2, E=cfg["E"], v=cfg["v"], planeStress=True, thickness=1.0)
+        pfm = PF(mat, cfg["split"], cfg["regularization"], Gc=cfg["Gc"], l0=cfg["l0"], solver=PF.SolverType.HistoryDamage)
+        simu = Simulations.PhaseField(mesh, pfm, verbosity=False)
+        simu.solver = "scipy"
+        return dict(mat=mat, pfm=pfm), simu
+
+    def load(simu, mesh, ud):
+        simu.Bc_Init()
+        simu.add_dirichlet(mesh.Nodes_Conditions(lambda x, y, z: x == 0), [0, 0], ["x", "y"])
+        simu.add_dirichlet(mesh.Nodes_Conditions(lambda x, y, z: x == 1), [ud], ["x"])
+
+    def dense(a):
+        return a.toarray() if hasattr(a, "toarray") else np.asarray(a)
+
+    def rel(a, b):
+        a, b = dense(a), dense(b)
+        return float(np.abs(a - b).max() / max(np.abs(b).max(), 1e-300))
+    with contextlib.redirect_stdout(io.StringIO()):
+        mesh = Domain(Point(), Point(1, 1), 0.25).Mesh_2D([], ElemType.TRI3)
+        objs, simu = build(mesh, first)
+        for ud in (0.2, 0.3):
+            load(simu, mesh, ud)
+            simu.Solve()
+            simu.Save_Iter()
+        u, d = np.asarray(simu.displacement).copy(), np.asarray(simu.damage).copy()
+        setattr(objs[change[0]], change[1], change[2])
+        Kd, _, _, Fd = simu.Get_K_C_M_F("damage")
+        Ku = simu.Get_K_C_M_F("elastic")[0]
+        final = dict(first)
+        final[change[1]] = change[2]
+        _, fresh = build(mesh, final)
+        fresh._Set_solutions("damage", d.copy())
+        fresh._Set_solutions("elastic", u.copy())
+        load(fresh, mesh, 0.3)
+        Kd2, _, _, Fd2 = fresh.Get_K_C_M_F("damage")
+        Ku2 = fresh.Get_K_C_M_F("elastic")[0]
+        errs = {"Kd": rel(Kd, Kd2), "Fd": rel(Fd, Fd2), "Ku": rel(Ku, Ku2)}
+        load(simu, mesh, 0.35)
+        load(fresh, mesh, 0.35)
+        simu.Solve()
+        fresh.Solve()
+        errs["next damage"] = rel(simu.damage, fresh.damage)
+        errs["next displacement"] = rel(simu.displacement, fresh.displacement)
+    bad = {k: v for k, v in errs.items() if v > 1e-9}
+    if bad:
+        raise Refuted(f"PhaseField: two solved steps, then {op} = {change[2]}: differs from a simulation built directly in the final configuration with the same (u, d): "
+                      + ", ".join(f"{k} {v:.3e}" for k, v in bad.items()), cex=dict(history=["Solve", "Save_Iter", "Solve", "Save_Iter", f"{op} = {change[2]}", "Get_K_C_M_F('damage')", "Solve"]),
+                      signature=f"phasefield_change:{op}", replay=dict(confirmed=True, errors=errs))
+    return Verdict(DISCHARGED, backend="native run vs fresh simulation", detail=str({k: f"{v:.1e}" for k, v in errs.items()}))
+
+
+def ob_meshswap_state(sim):
+    """replacing the mesh of a simulation whose model carries a state per integration point (energy history of the phase-field History solver, internal variables of an
+    inelastic behaviour): after `simu.mesh = other` the next solution equals that of a simulation constructed directly on that mesh -- for a copy of the mesh (same sizes: a stale
+    state fits silently) and for a finer mesh (a stale state has the wrong shape)."""
+    import contextlib, io
+    from EasyFEA import Models, Simulations, ElemType
+    from EasyFEA.Geoms import Domain, Point
+
+    def bc(simu, mesh, ud):
+        simu.Bc_Init()
+        simu.add_dirichlet(mesh.Nodes_Conditions(lambda x, y, z: x == 0), [0, 0], ["x", "y"])
+        simu.add_dirichlet(mesh.Nodes_Conditions(lambda x, y, z: x == 1), [ud], ["x"])
+
+    def build(mesh):
+        if sim == "PhaseField":
+            mat = Models.Elastic.Isotropic(2, E=1.0, v=0.3, planeStress=True, thickness=1.0)
+            PF = Models.PhaseField
+            s_ = Simulations.PhaseField(mesh, PF(mat, PF.SplitType.Amor, PF.ReguType.AT2, Gc=0.1, l0=0.1, solver=PF.SolverType.History), verbosity=False)
+        else:
+            IE = Models.InElastic
+            s_ = Simulations.InElastic(mesh, IE.Behavior(2, Models.Elastic.Isotropic(3, 1000.0, 0.3), IE.Yield.VonMises(1.0), IE.IsotropicHardening.Linear(10.0)))
+        s_.solver = "scipy"
+        return s_
+    loads, small = ((0.2, 0.3), 0.01) if sim == "PhaseField" else ((0.005, 0.01), 0.0005)
+    out = {}
+    with contextlib.redirect_stdout(io.StringIO()):
+        mesh = Domain(Point(), Point(1, 1), 0.25).Mesh_2D([], ElemType.TRI3)
+        for case, other in (("copy of the mesh", mesh.copy()), ("finer mesh", Domain(Point(), Point(1, 1), 0.2).Mesh_2D([], ElemType.TRI3))):
+            simu = build(mesh)
+            for ud in loads:
+                bc(simu, mesh, ud)
+                simu.Solve()
+                simu.Save_Iter()
+            simu.mesh = other
+            bc(simu, other, small)
+            fresh = build(other)
+            bc(fresh, other, small)
+            try:
+                simu.Solve()
+            except Exception as ex:
+                raise Refuted(f"{sim}: two solved steps, then simu.mesh = {case}, then Solve raises {type(ex).__name__}: {str(ex)[:160]} (the state of the old mesh is still there)",
+                              cex=dict(history=["Solve", "Save_Iter", "Solve", "Save_Iter", f"simu.mesh = {case}", "Solve"]), signature=f"meshswap:{sim}:{case.split()[0]}", replay=dict(confirmed=True))
+            fresh.Solve()
+            for nm in (("displacement", "damage") if sim == "PhaseField" else ("displacement",)):
+                a, b = np.asarray(getattr(simu, nm)), np.asarray(getattr(fresh, nm))
+                out[f"{case}: {nm}"] = float(np.abs(a - b).max() / max(np.abs(b).max(), 1e-300)) if np.abs(b).max() > 1e-14 else float(np.abs(a - b).max())
+    bad = {k: v for k, v in out.items() if v > 1e-9}
+    if bad:
+        raise Refuted(f"{sim}: two solved steps, then simu.mesh = other, then a small load: the solution differs from that of a simulation constructed on that mesh: "
+                      + ", ".join(f"{k} {v:.3e}" for k, v in bad.items()) + " (the state computed on the old mesh survives the replacement)",
+                      cex=dict(history=["Solve", "Save_Iter", "Solve", "Save_Iter", "simu.mesh = other", "Solve"]), signature=f"meshswap:{sim}:state", replay=dict(confirmed=True, errors=out))
+    return Verdict(DISCHARGED, backend="native run vs fresh simulation", detail=str({k: f"{v:.1e}" for k, v in out.items()}))
+
+
+def ob_meshswap_weakforms():
+    """replacing the mesh of a weak-form simulation (a copy stretched to a 3 x 1 plate): K and F equal those of a simulation constructed on that mesh with the same forms."""
+    import contextlib, io
+    from EasyFEA import Models, Simulations, ElemType
+    from EasyFEA.Geoms import Domain, Point
+    from EasyFEA.FEM import Field, BiLinearForm, LinearForm
+    bil = BiLinearForm(lambda u, v: u.grad.dot(v.grad))
+    lin = LinearForm(lambda v: 1.0 * v)
+    with contextlib.redirect_stdout(io.StringIO()):
+        mesh = Domain(Point(), Point(1, 1), 0.25).Mesh_2D([], ElemType.TRI3)
+        simu = Simulations.WeakForms(mesh, Models.WeakForms(Field(mesh.groupElem, 1), computeK=bil, computeF=lin))
+        simu.Get_K_C_M_F()
+        mesh2 = mesh.copy()
+        mesh2.coord = mesh2.coord * np.array([3, 1, 1])
+        simu.mesh = mesh2
+        K, _, _, F = simu.Get_K_C_M_F()
+        fresh = Simulations.WeakForms(mesh2, Models.WeakForms(Field(mesh2.groupElem, 1), computeK=bil, computeF=lin))
+        Kf, _, _, Ff = fresh.Get_K_C_M_F()
+    eK = float(np.abs(K.toarray() - Kf.toarray()).max() / np.abs(Kf.toarray()).max())
+    if eK > 1e-10 or abs(F.sum() - Ff.sum()) > 1e-10:
+        raise Refuted(f"WeakForms: after simu.mesh = (copy stretched to 3 x 1) the assembled K differs from a fresh simulation's by {eK:.3e} and sum F = {float(F.sum()):.4f} against {float(Ff.sum()):.4f}: "
+                      "the forms are still integrated on the element group the model's Field was built on", cex=dict(history=["Get_K_C_M_F", "simu.mesh = stretched copy", "Get_K_C_M_F"]),
+                      signature="meshswap:WeakForms", replay=dict(confirmed=True, rel_K=eK))
+    return Verdict(DISCHARGED, backend="native run vs fresh simulation")
+
+
+def ob_beam_theory_switch():
+    """`Simulations.Beam.useTimoshenko` is a public parameter whose setter raises the update flag: after it is switched the matrices equal those of a simulation constructed with that theory."""
+    import contextlib, io
+    from EasyFEA import Models, Simulations, ElemType, Mesher
+    from EasyFEA.Geoms import Domain, Point, Line
+    with contextlib.redirect_stdout(io.StringIO()):
+        sect = Mesher().Mesh_2D(Domain(Point(-0.05, -0.1), Point(0.05, 0.1), 0.02), [], ElemType.TRI3)
+        beam = Models.Beam.Isotropic(2, Line(Point(), Point(1, 0, 0), 0.1), sect, 210e9, 0.3)
+        mesh = Mesher().Mesh_Beams([beam], elemType=ElemType.SEG3)
+        simu = Simulations.Beam(mesh, beam, verbosity=False)
+        simu.Get_K_C_M_F()
+        try:
+            simu.useTimoshenko = True
+        except Exception as ex:       # a read-only parameter is a legitimate repair
+            return Verdict(DISCHARGED, backend="native run", detail=f"the switch is refused: {type(ex).__name__}")
+        K = simu.Get_K_C_M_F()[0].toarray()
+        Kf = Simulations.Beam(mesh, beam, useTimoshenko=True, verbosity=False).Get_K_C_M_F()[0].toarray()
+    e = float(np.abs(K - Kf).max() / np.abs(Kf).max()) if K.shape == Kf.shape else float("inf")
     if e > 1e-10:
-        raise Refuted(f"beam simulation: after the cross-section of a beam is replaced by one of another area the assembled K / M differ from a fresh simulation's by {e:.3e} (relative)",
-                      signature="history:beam:section", replay=dict(confirmed=True, rel_diff=e))
+        raise Refuted(f"Beam: simu.useTimoshenko = True after construction is accepted and raises the update flag, but the assembled K differs from a simulation constructed with useTimoshenko=True by {e:.3e}: "
+                      "the theory is carried by the class of the element group chosen at construction", cex=dict(history=["Get_K_C_M_F", "simu.useTimoshenko = True", "Get_K_C_M_F"]),
+                      signature="beam:theory_switch", replay=dict(confirmed=True, rel_K=e))
+    return Verdict(DISCHARGED, backend="native run vs fresh simulation")
+
+
+def ob_hyper_fibres():
+    """re-assigning the fibre / sheet directions of a Holzapfel-Ogden law (vectors of any length, as the constructor accepts them): energy, stress and tangent at a seeded
+    deformation equal those of a law constructed directly with these directions."""
+    from EasyFEA import Models
+    from EasyFEA.FEM._utils import MatrixType
+    from EasyFEA.Models.HyperElastic import HyperElasticState
+    HO = dict(C0=1.0, C1=2.0, C2=3.0, C3=2.0, C4=1.5, C5=1.0, C6=4.0, C7=3.0, K=50.0, Mu1=0.5, Mu2=0.25, ks=20.0)
+    mesh = patches.two_element_mesh("HEXA8")
+    g = mesh.groupElem
+    rng = np.random.default_rng(5)
+    st = HyperElasticState(g, rng.uniform(-0.05, 0.05, 3 * mesh.Nn), MatrixType.rigi)
+    a, b = np.array([1.0, 1.0, 0.0]), np.array([-2.0, 2.0, 1.0])
+    lived = Models.HyperElastic.HolzapfelOgden(3, T1=np.array([1.0, 0, 0]), T2=np.array([0, 1.0, 0]), **HO)
+    lived.Compute_W(st)
+    lived.T1, lived.T2 = a, b
+    fresh = Models.HyperElastic.HolzapfelOgden(3, T1=a, T2=b, **HO)
+    errs = {}
+    for nm in ("Compute_W", "Compute_dWde", "Compute_d2Wde"):
+        x, y = np.asarray(getattr(lived, nm)(st)), np.asarray(getattr(fresh, nm)(st))
+        errs[nm] = float(np.abs(x - y).max() / np.abs(y).max())
+    bad = {k: v for k, v in errs.items() if v > 1e-12}
+    if bad:
+        raise Refuted(f"Holzapfel-Ogden: after `mat.T1 = {a.tolist()}; mat.T2 = {b.tolist()}` the law differs from one constructed with these directions: "
+                      + ", ".join(f"{k} {v:.3e}" for k, v in bad.items()) + f" (|T1| stored = {float(np.linalg.norm(lived.T1)):.4f}: the constructor normalises, the assignment does not)",
+                      cex=dict(history=["construct with unit directions", "Compute_W", "T1 = (1, 1, 0)", "T2 = (-2, 2, 1)"]), signature="hyper:fibres", replay=dict(confirmed=True, errors=errs))
+    return Verdict(DISCHARGED, backend="native run vs fresh law")
+
+
+def ob_beam_section_swap(timo=False):
+    e = _beam_section_swap(timo)
+    if e > 1e-10:
+        raise Refuted(f"{'Timoshenko ' if timo else ''}beam simulation: after the cross-section of a beam is replaced by one of another area the assembled K / M differ from a fresh simulation's by {e:.3e} (relative)",
+                      signature="history:beam:section" + (":timoshenko" if timo else ""), replay=dict(confirmed=True, rel_diff=e))
     return Verdict(DISCHARGED, backend="native run vs fresh simulation")
 
 
@@ -1031,7 +1231,8 @@ def ob_restore_after_scheme_switch(sim):
         s_ = _mk(sim)
         _bc(s_, sim, 1)
         return s_
-    schemes = {"WeakForms": ["parabolic", "hyperbolic", "elliptic"], "Elastic": ["elliptic", "hyperbolic"], "Beam": ["elliptic", "hyperbolic"], "HyperElastic": ["elliptic", "hyperbolic"]}[sim]
+    schemes = {"WeakForms": ["parabolic", "hyperbolic", "elliptic"], "Elastic": ["elliptic", "hyperbolic"], "Beam": ["elliptic", "hyperbolic"], "HyperElastic": ["elliptic", "hyperbolic"],
+               "Thermal": ["elliptic", "parabolic"]}[sim]
 
     def setscheme(s_, name):
         if name == "parabolic":
@@ -1049,6 +1250,12 @@ def ob_restore_after_scheme_switch(sim):
             s_.Save_Iter()
             pt = s_.problemType
             u0 = np.asarray(s_._Get_u_n(pt)).copy()
+            # the time derivatives current when the iteration was saved, as far as the scheme of that moment carries them
+            d0 = {}
+            if a_ in ("parabolic", "hyperbolic"):
+                d0["first time derivative"] = (s_._Get_v_n, np.asarray(s_._Get_v_n(pt)).copy())
+            if a_ == "hyperbolic":
+                d0["second time derivative"] = (s_._Get_a_n, np.asarray(s_._Get_a_n(pt)).copy())
             setscheme(s_, b_)
             s_.Solve()
             s_.Save_Iter()
@@ -1061,6 +1268,13 @@ def ob_restore_after_scheme_switch(sim):
         n += 1
         if not np.array_equal(np.asarray(s_._Get_u_n(pt)), u0):
             raise Refuted(f"{sim}: after scheme {a_} -> {b_}, Set_Iter(0) does not bring back the unknown saved at iteration 0", signature=f"restore_scheme:{sim}:u", replay=dict(confirmed=True))
+        for nm, (get, want) in d0.items():
+            got = np.asarray(get(pt))
+            if np.abs(want).max() > 0 and not np.array_equal(got, want):
+                raise Refuted(f"{sim}: iteration 0 was saved under the {a_} scheme with a {nm} of magnitude {np.abs(want).max():.3e}; after switching to the {b_} scheme, Set_Iter(0) brings back "
+                              f"{np.abs(got).max():.3e} (max difference {np.abs(got - want).max():.3e}): the stored field is discarded because of the scheme active now",
+                              cex=dict(simulation=sim, history=[f"scheme {a_}", "Solve", "Save_Iter", f"scheme {b_}", "Solve", "Save_Iter", "Set_Iter(0)"]), signature=f"restore_scheme:{sim}:derivatives",
+                              replay=dict(confirmed=True))
     return Verdict(DISCHARGED, backend="native run", sub=n)
 
 
@@ -1092,9 +1306,23 @@ def build(tier, seed):
             obs.append(Ob(f"C14.history.model.{law}.{dim}d", ob_model_history, (law, dim), "X", ("EasyFEA/Models/Elastic/_laws.py::_Elastic.Get_sqrt_C_S", "EasyFEA/Models/Elastic/_laws.py::_Elastic.C[setter]", f"EasyFEA/Models/Elastic/_laws.py::{law}"),
                           bound="every sequence of length <= 3 over reads, 3-5 parameter assignments, Set_C (with / without compliance update) and the public C setter",
                           clause="C, S and the cached matrix square roots (C^1/2, C^-1/2) equal those of a model constructed in the final configuration", timeout=600))
-    for sim in ("WeakForms", "Elastic", "Beam", "HyperElastic"):
+    for sim in ("WeakForms", "Elastic", "Beam", "HyperElastic", "Thermal"):
         obs.append(Ob(f"C14.history.restore.scheme.{sim}", ob_restore_after_scheme_switch, (sim,), "X", (f"EasyFEA/Simulations/_{sim.lower()}.py::{sim}.Set_Iter", f"EasyFEA/Simulations/_{sim.lower()}.py::{sim}.Save_Iter"),
-                      bound="one small mesh, every ordered pair of time schemes the simulation accepts", clause="switching the time scheme then restoring an earlier iteration works and brings back the stored unknown", timeout=300))
+                      bound="one small mesh, every ordered pair of time schemes the simulation accepts", clause="switching the time scheme then restoring an earlier iteration works and brings back the stored unknown and its stored time derivatives", timeout=300))
+    for op in ("material.E", "material.v", "model.Gc", "model.l0", "model.split", "model.regularization"):
+        obs.append(Ob(f"C14.history.phasefield.{op}", ob_phasefield_change, (op,), "X", ("EasyFEA/Simulations/_phasefield.py::PhaseField._Update", "EasyFEA/Simulations/_phasefield.py::PhaseField.Get_K_C_M_F"),
+                      bound="one 2-D mesh, two load steps, one new value", clause="after a change of the elastic material or of the phase-field model: Kd, Fd, Ku and the next solution == fresh simulation's", timeout=300))
+    for sim in ("PhaseField", "InElastic"):
+        obs.append(Ob(f"C14.history.meshswap.{sim}", ob_meshswap_state, (sim,), "X", (f"EasyFEA/Simulations/_{sim.lower()}.py::{sim}", f"{SIMU}::_Simu.mesh[setter]"),
+                      bound="one 2-D mesh, its copy and a finer mesh", clause="after the mesh is replaced the next solution == that of a simulation constructed on the new mesh (no state of the old mesh survives)", timeout=600))
+    obs.append(Ob("C14.history.meshswap.WeakForms", ob_meshswap_weakforms, (), "X", ("EasyFEA/Simulations/_weakforms.py::WeakForms.Construct_local_matrix_system",), bound="one 2-D mesh and a stretched copy",
+                  clause="after the mesh is replaced K and F == those of a weak-form simulation constructed on the new mesh", timeout=300))
+    obs.append(Ob("C14.history.beam.theory", ob_beam_theory_switch, (), "X", ("EasyFEA/Simulations/_beam.py::Beam.useTimoshenko",), bound="one beam",
+                  clause="switching the beam theory of a simulation: K == that of a simulation constructed with that theory (or the switch is refused)", timeout=300))
+    obs.append(Ob("C14.history.hyper.fibres", ob_hyper_fibres, (), "X", ("EasyFEA/Models/HyperElastic/_laws.py::HolzapfelOgden", "EasyFEA/Utilities/_params.py::UnitVectorParameter"), bound="one seeded deformation state",
+                  clause="re-assigned fibre directions give the law constructed with them (energy, stress, tangent)", timeout=300))
+    obs.append(Ob("C14.history.beam.section.timoshenko", ob_beam_section_swap, (True,), "X", ("EasyFEA/Models/Beam/_beam.py::_Beam.section[setter]", "EasyFEA/Models/Beam/_beam.py::_Beam._Get_shear_correction_factor"),
+                  bound="one 4-element Timoshenko beam, rectangle -> disk", clause="replacing the cross-section of a Timoshenko beam by one of another shape: K and M == fresh simulation's (shear correction factors of the new section)", timeout=300))
     obs.append(Ob("C14.history.beam.section", ob_beam_section_swap, (), "X", ("EasyFEA/Models/Beam/_beam.py::BeamStructure.Calc_M_e_pg", "EasyFEA/Models/Beam/_beam.py::_Beam.section[setter]"), bound="one 4-element beam",
                   clause="replacing the cross-section of a beam (another area): K and M == fresh simulation's", timeout=300))
     obs.append(Ob("C14.history.mesh.inDim", ob_mesh_indim, (), "X", (f"{MESH}::Mesh.inDim",), bound="one patch", clause="inDim after an out-of-plane rotation == a fresh mesh's"))
